@@ -237,6 +237,38 @@ Proof.
   cbn [filter map sf_sorter]. destruct (String.eqb (tg_sorter t) name); cbn [map]; rewrite IHt; reflexivity.
 Qed.
 
+(* what `tagged` lists: one (priority, view) pair per tag of the sorter *)
+Lemma tagged_from_iff : forall name fs base p k,
+  In (p, k) (tagged_from base name fs) <->
+  exists i f t, nth_error fs i = Some f /\ In t (fd_tags f) /\ tg_sorter t = name
+                /\ p = tg_prio t
+                /\ k = (if fd_isbool f then KBool else KOrd) (slot (base + i) (tg_acc t)).
+Proof.
+  intros name. induction fs as [|f r IH]; intros base p k.
+  - cbn [tagged_from]. split; [intros []|].
+    intros (i & f & t & H & _). destruct i; discriminate.
+  - cbn [tagged_from]. rewrite in_app_iff, in_map_iff. split.
+    + intros [(t & E & Ht)|H].
+      * apply filter_In in Ht. destruct Ht as [Ht En]. apply String.eqb_eq in En.
+        exists 0%nat, f, t. rewrite Nat.add_0_r. injection E as <- <-.
+        repeat split; try assumption. destruct (fd_isbool f); reflexivity.
+      * apply IH in H. destruct H as (i & f' & t & H1 & H2 & H3 & H4 & H5).
+        exists (S i), f', t. rewrite Nat.add_succ_r. repeat split; assumption.
+    + intros (i & f' & t & H1 & H2 & H3 & H4 & H5). destruct i as [|i].
+      * left. injection H1 as <-. rewrite Nat.add_0_r in H5. exists t. split.
+        -- subst p k. destruct (fd_isbool f); reflexivity.
+        -- apply filter_In. split; [assumption|]. apply String.eqb_eq. assumption.
+      * right. apply IH. exists i, f', t. rewrite Nat.add_succ_r in H5.
+        repeat split; assumption.
+Qed.
+
+Theorem tagged_iff : forall name fs p k,
+  In (p, k) (tagged name fs) <->
+  exists idx f t, nth_error fs idx = Some f /\ In t (fd_tags f) /\ tg_sorter t = name
+                  /\ p = tg_prio t
+                  /\ k = (if fd_isbool f then KBool else KOrd) (slot idx (tg_acc t)).
+Proof. intros. unfold tagged. exact (tagged_from_iff name fs 0%nat p k). Qed.
+
 (* the generated chain reads exactly the keys the specification names *)
 Theorem chain_keys : forall ty fs name d,
   find_sorter name (collect ty fs) = Some d ->
@@ -253,7 +285,7 @@ Theorem gen_less_spec : forall ty fs name f,
   gen_less ty fs name = Some f -> forall a b, f a b = spec_less name fs a b.
 Proof.
   intros ty fs name f H a b. unfold gen_less, create in H.
-  destruct (forallb _ _); [|discriminate].
+  destruct (forallb _ _); [|discriminate]. destruct (forms_ok _); [|discriminate].
   destruct (find_sorter name (collect ty fs)) as [d|] eqn:F; [|discriminate].
   injection H as <-. rewrite less_lex. unfold spec_less. erewrite chain_keys; eauto.
 Qed.
@@ -388,10 +420,10 @@ Proof.
     apply String.eqb_eq in E. exfalso. apply Hnin. rewrite E. apply in_map, Hin.
 Qed.
 
-Theorem create_some_iff : forall ty fs,
-  create ty fs <> None <-> (forall name, prios_distinct name fs = true).
+Theorem create_orig2_some_iff : forall ty fs,
+  create_orig2 ty fs <> None <-> (forall name, prios_distinct name fs = true).
 Proof.
-  intros ty fs. unfold create.
+  intros ty fs. unfold create_orig2.
   assert (ND := collect_names_nodup ty (all_sfds fs)). fold (collect ty fs) in ND.
   split.
   - intros H name. destruct (forallb _ (collect ty fs)) eqn:F; [|congruence].
@@ -417,6 +449,30 @@ Proof.
     rewrite F. discriminate.
 Qed.
 
+Lemma create_unfold : forall ty fs,
+  create ty fs = match create_orig2 ty fs with
+                 | Some ds => if forms_ok ds then Some ds else None
+                 | None => None
+                 end.
+Proof.
+  intros. unfold create, create_orig2. destruct (forallb _ (collect ty fs)); reflexivity.
+Qed.
+
+Theorem create_some_iff : forall ty fs,
+  create ty fs <> None <->
+  ((forall name, prios_distinct name fs = true) /\ forms_ok (collect ty fs) = true).
+Proof.
+  intros ty fs. rewrite create_unfold. split.
+  - intros H. destruct (create_orig2 ty fs) as [ds|] eqn:C; [|congruence].
+    assert (Hc : create_orig2 ty fs <> None) by congruence.
+    split; [exact (proj1 (create_orig2_some_iff ty fs) Hc)|].
+    unfold create_orig2 in C. destruct (forallb _ (collect ty fs)); [|discriminate].
+    injection C as <-. destruct (forms_ok (collect ty fs)); [reflexivity|congruence].
+  - intros [HD HF]. pose proof (proj2 (create_orig2_some_iff ty fs) HD) as Hc.
+    unfold create_orig2 in *. destruct (forallb _ (collect ty fs)); [|congruence].
+    rewrite HF. discriminate.
+Qed.
+
 (* a sorter exists for exactly the names some tag mentions *)
 Lemma fields_for_nonempty : forall name l,
   fields_for name l <> [] <-> In name (map sf_sorter l).
@@ -430,15 +486,16 @@ Proof.
 Qed.
 
 Theorem gen_less_defined : forall ty fs name,
-  (forall n, prios_distinct n fs = true) -> In name (sorter_names fs) ->
+  (forall n, prios_distinct n fs = true) -> forms_ok (collect ty fs) = true ->
+  In name (sorter_names fs) ->
   exists f, gen_less ty fs name = Some f.
 Proof.
-  intros ty fs name HD Hin. unfold gen_less.
+  intros ty fs name HD HF Hin. unfold gen_less.
   destruct (create ty fs) as [ds|] eqn:C.
-  - unfold create in C. destruct (forallb _ _); [|discriminate]. injection C as <-.
-    rewrite find_collect. apply fields_for_nonempty in Hin.
+  - unfold create in C. destruct (forallb _ _); [|discriminate]. rewrite HF in C.
+    injection C as <-. rewrite find_collect. apply fields_for_nonempty in Hin.
     destruct (fields_for name (all_sfds fs)); [congruence|]. eexists; reflexivity.
-  - exfalso. apply (proj2 (create_some_iff ty fs) HD). exact C.
+  - exfalso. apply (proj2 (create_some_iff ty fs) (conj HD HF)). exact C.
 Qed.
 
 (* ------------------------------------------------------------------------------------
